@@ -33,6 +33,9 @@ func (h *TextStreamBulkHandler) GetChannels(_ http.ResponseWriter, r *http.Reque
 				nextElement, err := ParseTextStream(scanner)
 				if err != nil {
 					h.err = err
+					// a malformed element is a failing element of the bulk
+					h.actions = append(h.actions, "")
+					h.channel <- BulkElement{parseError: err}
 					return
 				}
 
